@@ -7,7 +7,7 @@ then uses `dao.id` as the key - the generated DAOs call their key `database_id`:
  * the lookup by name alone finds the first row of that name (equal names, different objects).
  * a variable without a domain (the way the tests declare variables for SQL) -> IndexError out of eql_to_sql.
 
-Run:  cd /tmp/hunt2/C07 && PYTHONPATH=/tmp/hunt2/C07/src:/tmp/hunt2/C07 /venv/bin/python HUNT/defect9.py
+Run:  cd /tmp/hunt2/C07 && PYTHONPATH=/repo/src:/tmp/hunt2/C07 /venv/bin/python HUNT/defect9.py
 Exits non-zero when the translated statement and the in-memory evaluation disagree (the defect is present).
 """
 import importlib, os, sys, tempfile, warnings
